@@ -21,6 +21,11 @@ REVIEWED = {
 }
 
 
+REVIEWED_KEY_SITES = {"processing._substitute_original_strings": 1, "processing._schedule_rewrites": 1, "fixes.remove_duplicate_functions": 2, "fixes._move_before_scope": 1, "fixes._move_after_scope": 1,
+                      "fixes._fix_duplicate_from_imports": 1, "fixes._fix_duplicate_regular_imports": 1, "fixes._breakout_stacked_imports": 1, "symbolic_math.simplify_constrained_range": 1,
+                      "tracing.trace_origin": 1, "tracing.fix_reimported_names": 1}
+
+
 def generate(g: Gen):
     from pyvc import order
     pkg = order.analyse()
@@ -50,6 +55,12 @@ def generate(g: Gen):
                 return {"reproduced": False, "how": "static flow: the iteration order of a set reaches a returned / yielded value; no input is constructed",
                         "function": key, "order_dependent_sites_reviewed_on_the_pinned_tree": allowed, "order_dependent_sites_now": len(flows), "flows": flows}
             g.oblige("order", f"{key}:no-set-iteration-order-reaches-a-result", [], z3.BoolVal(False), line, replay=replay)
+    # sorted / min / max WITH a key over an unordered value: ties keep the set's order, so the key has to be total on the elements - read for
+    # the sites below (count per function); one more such site in a function is reported undecided (its key has not been read)
+    for key in sorted(pkg.funcs):
+        n_sites = len({k[1] for k in pkg.funcs[key].key_sites})
+        if n_sites or key in REVIEWED_KEY_SITES:
+            g.oblige_text("order", f"{key}:sort-keys-over-unordered-values-were-read", n_sites <= REVIEWED_KEY_SITES.get(key, 0), pkg.funcs[key].node.lineno)
     waived = sorted({(f.key, w[1]) for f in pkg.funcs.values() for w in f.waived})
     keyed = sorted({(f.key, k[1]) for f in pkg.funcs.values() for k in f.key_sites})
     g.assumptions.add(f"{len(waived)} yields of explicitly numbered transactions inside set-ordered loops are waived: the schedule does not depend on the arrival order of "
